@@ -4,7 +4,10 @@ import json
 
 ENGINE = "month"
 RULE = ("exhaustive product 12 months x {int, zero-padded decimal strings, case variants of abbreviation and full name} x "
-        "{3 single middlewares + 9 ordered pairs}; non-month values; arbitrary Unicode strings (no-raise). "
+        "{3 single middlewares + 9 ordered pairs}; non-month values; arbitrary Unicode strings (no-raise); all 27 chains of "
+        "three middlewares and random longer ones; transform / edit / transform sequences on one entry (month re-set by the "
+        "caller in four ways, deep copies, output library of an earlier run, instances re-used or fresh, in place or not, entry "
+        "from parse_string with a month middleware in the parse stack). "
         "distinct = distinct (value, middleware sequence); non-trivial = the value is a month spelling or a near miss "
         "(out-of-range number, enclosed or padded month, other type)")
 TRUSTED = ["oracle instances: str.lower restricted to ASCII, int() restricted to ASCII decimals (inputs outside are "
@@ -136,6 +139,94 @@ def generate(rng, tier):
         if rng.random() < 0.3:
             vs.insert(rng.randint(0, len(vs)), rng.choice(near[:12]))
         cases.append({"stream": "multi", "input": {"values": [jv(v) for v in vs], "mws": rng.choice(SEQS)}})
+    cases += gen_chains(rng, tier, fam)
+    cases += gen_edits(rng, tier)
+    return cases
+
+
+def spellings(m):
+    return [m, str(m), "%02d" % m, ABBR[m - 1], ABBR[m - 1].upper(), ABBR[m - 1].capitalize(), FULL[m - 1], FULL[m - 1].upper(),
+            FULL[m - 1].lower()]
+
+
+NEAR_SMALL = [0, 13, -1, "0", "13", "{jan}", '"1"', "", "janu", "sept", "x", " jan", None, ["jan"], 3.0]      # no bool: not a value the property quantifies over (DESIGN 7)
+
+
+def gen_chains(rng, tier, fam):
+    """The same kind of middleware applied AGAIN after others: every chain of three, random longer chains."""
+    quick = tier == "quick"
+    cases = []
+    chains3 = [list(c) for c in itertools.product(range(3), repeat=3)]
+    for m in range(1, 13):
+        sp = spellings(m)
+        for v in (rng.sample(sp, 3) if quick else sp):
+            for seq in chains3:
+                cases.append({"stream": "chain", "input": {"value": jv(v), "mws": seq, "shape": 0}})
+    for v in NEAR_SMALL:
+        for seq in (rng.sample(chains3, 9) if quick else chains3):
+            cases.append({"stream": "chain", "input": {"value": jv(v), "mws": seq, "shape": 0}})
+    for _ in range(150 if quick else 4000):
+        v = rng.choice(spellings(rng.randint(1, 12))) if rng.random() < 0.85 else rng.choice(NEAR_SMALL)
+        seq = [rng.randrange(3) for _ in range(rng.randint(4, 7))]
+        cases.append({"stream": "chain", "input": {"value": jv(v), "mws": seq, "shape": rng.choice([0, 0, 2, 3])}})
+    for i in range(40 if quick else 1000):
+        f = fam[i % len(fam)]
+        vs = [rng.choice(f) for _ in range(rng.randint(2, 4))]
+        cases.append({"stream": "multi", "input": {"values": [jv(v) for v in vs], "mws": [rng.randrange(3) for _ in range(rng.randint(3, 5))]}})
+    return cases
+
+
+def gen_edits(rng, tier):
+    """transform / edit / transform on ONE entry.  steps: ["mw", kind, inplace, reuse] | ["set", value, how] | ["copy", how]"""
+    quick = tier == "quick"
+    cases = []
+
+    def some_value(p_month=0.85):
+        return rng.choice(spellings(rng.randint(1, 12))) if rng.random() < p_month else rng.choice(NEAR_SMALL)
+
+    def mw(k=None):
+        return ["mw", rng.randrange(3) if k is None else k, rng.randrange(2), rng.randrange(2)]
+
+    def add(start, steps, shape=None, make=None):
+        inp = {"start": jv(start), "steps": steps, "shape": rng.choice([0, 2]) if shape is None else shape}
+        if make is not None:
+            inp["make"] = make
+        cases.append({"stream": "edit", "input": inp})
+    # the same kind, the month re-set in between (every way of setting it), to another month / a non-month / the same month
+    for k in range(3):
+        for m in range(1, 13):
+            for how in range(4):
+                other = rng.choice([x for x in range(1, 13) if x != m])
+                for v2 in (rng.choice(spellings(other)), rng.choice(NEAR_SMALL)) if quick else spellings(other) + NEAR_SMALL:
+                    inpl, reuse = rng.randrange(2), rng.randrange(2)
+                    add(rng.choice(spellings(m)), [["mw", k, inpl, reuse], ["set", jv(v2), how], ["mw", k, inpl, reuse]])
+    # the same kind again on a copy / on the output library after other kinds ran
+    for k in range(3):
+        for k2 in range(3):
+            for chow in range(3):
+                for _ in range(2 if quick else 12):
+                    v = rng.choice(spellings(rng.randint(1, 12)))
+                    add(v, [mw(k), ["copy", chow], mw(k2), mw(k)])
+                    add(v, [mw(k), mw(k2), ["copy", chow], mw(k)])
+    # entry produced by parse_string with a month middleware in the parse stack
+    for k in range(3):
+        for m in range(1, 13):
+            for v in (rng.sample(spellings(m)[1:], 2) if quick else spellings(m)[1:]):
+                k2 = rng.randrange(3)
+                add(v, [mw(k2), mw(k)], shape=2, make=["parse", k])
+                add(v, [["set", jv(some_value(1.0)), rng.randrange(4)], mw(k)], shape=2, make=["parse", k])
+    # random sequences
+    for _ in range(400 if quick else 8000):
+        steps = []
+        for _ in range(rng.randint(2, 7)):
+            r = rng.random()
+            steps.append(mw() if r < 0.55 else ["set", jv(some_value()), rng.randrange(4)] if r < 0.85 else ["copy", rng.randrange(3)])
+        steps.append(mw())
+        v = some_value()
+        if isinstance(v, str) and v.isalnum() and v.isascii() and rng.random() < 0.2:
+            add(v, steps, shape=2, make=["parse", rng.randrange(3)])
+        else:
+            add(v, steps)
     return cases
 
 
@@ -182,6 +273,8 @@ def impl(case):
     inp = case["input"]
     if "values" in inp:
         return impl_multi(case, MW)
+    if "steps" in inp:
+        return impl_edit(case, MW)
     v = unjv(inp["value"])
     shape = inp["shape"]
     if shape == 0:
@@ -241,7 +334,7 @@ def impl(case):
     rec["oracle"] = {"ok": ok, "detail": detail}
     m = month_of(v)
     rec["nontrivial"] = (m is not None) or case["stream"] in ("near", "shape")
-    rec["tags"] = ["month" if m is not None else "nonmonth"]
+    rec["tags"] = ["month" if m is not None else "nonmonth"] + (["chain%d" % min(len(inp["mws"]), 4)] if len(inp["mws"]) > 2 else [])
     rec["summary"] = ("[" + ", ".join("(%r, %s)" % (f.key, sr(f.value)) for f in blk.fields) + "]")[:200] if type(blk).__name__ == "Entry" else type(blk).__name__
     return rec
 
@@ -286,4 +379,117 @@ def impl_multi(case, MW):
                 break
     rec["oracle"] = {"ok": ok, "detail": detail}
     rec["summary"] = repr([b.fields[0].value for b in lib.blocks if type(b).__name__ == "Entry" and b.fields])[:200]
+    return rec
+
+
+def impl_edit(case, MW):
+    """One entry through middleware applications interleaved with edits of the month by the caller and with copies.
+
+    Property: whatever happened to the entry before, a month middleware turns the month value it FINDS into its form (or
+    leaves a non-month alone), so the final value is expected(last kind, value set last).  Model comparison: the entry as it
+    is after the last edit / copy (metadata of earlier runs included) through the remaining middlewares (op 10)."""
+    import copy
+    import bibtexparser
+    import enc
+    import implutil
+    from bibtexparser.library import Library
+    from bibtexparser.model import Entry, Field
+    inp = case["input"]
+    start = unjv(inp["start"])
+    shape = inp["shape"]
+    steps = inp["steps"]
+    make = inp.get("make")
+    abstract = ("MonthIntMiddleware", "MonthAbbreviationMiddleware", "MonthLongStringMiddleware")
+    last_edit = max([i for i, st in enumerate(steps) if st[0] != "mw"], default=-1)
+    tail = [st[1] for st in steps[last_edit + 1:]]
+    state = {"snap": None, "others": None}
+
+    def others_of(e):
+        return [(f.key, f.value) for f in e.fields if f.key != "month"]
+
+    def run():
+        pool = {}
+        if make is not None:
+            lib = bibtexparser.parse_string("@article{k,\n  year = 2020,\n  month = %s,\n  note = {jan}\n}\n" % start,
+                                            parse_stack=[MW[make[1]]()])
+        else:
+            if shape == 0:
+                fields = [Field("month", start, 2)]
+            else:
+                fields = [Field("year", 2020, 1), Field("month", start, 2), Field("note", "jan", 3)]
+            lib = Library([Entry("article", "k", fields, start_line=0, raw="@article{k}")])
+        state["others"] = others_of(lib.blocks[0])
+        if last_edit < 0:
+            state["snap"] = enc.enc_block(lib.blocks[0], abstract)
+        for i, st in enumerate(steps):
+            if st[0] == "mw":
+                _, k, inplace, reuse = st
+                if reuse:
+                    m = pool.setdefault((k, inplace), MW[k](allow_inplace_modification=bool(inplace)))
+                else:
+                    m = MW[k](allow_inplace_modification=bool(inplace))
+                lib = m.transform(lib)
+            elif st[0] == "set":
+                e = lib.entries[0]
+                v = unjv(st[1])
+                if st[2] == 0:
+                    e["month"] = v
+                elif st[2] == 1:
+                    e.fields_dict["month"].value = v
+                elif st[2] == 2:
+                    e.set_field(Field("month", v, 7))
+                else:
+                    e.pop("month")
+                    e.set_field(Field("month", v))
+            else:
+                if st[1] == 0:
+                    lib = Library([copy.deepcopy(lib.blocks[0])])
+                elif st[1] == 1:
+                    lib = Library([lib.blocks[0]])
+                else:
+                    lib = copy.deepcopy(lib)
+            if i == last_edit:
+                state["snap"] = enc.enc_block(lib.blocks[0], abstract)
+        return lib
+    r = implutil.guarded(run)
+    sets = [unjv(st[1]) for st in steps if st[0] == "set"]
+    v = sets[-1] if sets else start                       # the value the last run of middlewares starts from (as a month)
+    sx_in = [10, tail, state["snap"]] if state["snap"] is not None else None
+    rec = {"sx_in": sx_in, "key": json.dumps(inp, sort_keys=True), "nontrivial": True,
+           "tags": ["edit", "edit-set" if sets else "edit-copy", "parsed" if make is not None else "built"]}
+    if r[0] == "exc":
+        rec["sx_out"] = implutil.r_exc(r[1]) if sx_in is not None else None
+        rec["oracle"] = {"ok": False, "detail": "raised %s in sequence %r starting from month %s" % (r[2], steps, sr(start))}
+        rec["summary"] = "raised " + r[2]
+        return rec
+    lib = r[1]
+    blk = lib.blocks[0] if len(lib.blocks) == 1 else None
+    rec["sx_out"] = implutil.r_ok(enc.enc_block(blk, abstract)) if blk is not None else None
+    if blk is None:
+        rec["sx_in"] = None
+    # the model sees the value set last, or - if the last non-middleware step is a copy or there is none - a result of the
+    # middlewares or the start value
+    seen = [start] + sets
+    if any(isinstance(x, str) and (not enc.lower_is_ascii_only(x) or (x.isdecimal() and not x.isascii())) for x in seen):
+        rec["skip"] = True
+    if any(not isinstance(x, (str, int, list, type(None))) for x in seen):
+        rec["skip"] = True
+    ok, detail = True, ""
+    if blk is None or type(blk).__name__ != "Entry":
+        ok, detail = False, "result is not one entry"
+    else:
+        mf = [f for f in blk.fields if f.key == "month"]
+        exp = expected(steps[-1][1], v)
+        if len(mf) != 1:
+            ok, detail = False, "%d month fields after %r" % (len(mf), steps)
+        else:
+            got = mf[0].value
+            if not (type(got) is type(exp) and got == exp):
+                ok, detail = False, ("entry%s with month %s through %r: the last middleware found month value %s and left %s (%s), expected %s"
+                                     % (" parsed with middleware %d" % make[1] if make is not None else "", sr(start), steps, sr(v), sr(got),
+                                        type(got).__name__, sr(exp)))
+        if ok and others_of(blk) != state["others"]:
+            ok, detail = False, "other fields changed: %r -> %r" % (state["others"], others_of(blk))
+    rec["oracle"] = {"ok": ok, "detail": detail}
+    rec["summary"] = ("[" + ", ".join("(%r, %s)" % (f.key, sr(f.value)) for f in blk.fields) + "]")[:200] if blk is not None and type(blk).__name__ == "Entry" else "?"
     return rec
